@@ -1,9 +1,1194 @@
-//! stub — being built
+//! C17 — TLS peers are authenticated exactly as configured.
+//!
+//! Bounded-exhaustive enumeration of the configuration matrix.  The subject is
+//! `rusty_penguin_lib::tls::{tls_connect, make_tls_identity, make_server_config,
+//! make_tls_identity_from_pem, reload_tls_identity, reload_tls_identity_from_pem}`;
+//! client and server halves are joined by an in-memory `tokio::io::duplex`.
+//! The oracle is a truth table written from the property statement: which
+//! certificate was issued by which CA is known *by construction* (the harness
+//! creates every CA, leaf and self-signed certificate itself with rcgen).
+//!
+//! Three passes:
+//!  1. `matrix`  – subject client x subject server, the full product of the dimensions;
+//!  2. `probe`   – a harness-owned rustls client (TLS 1.2 and 1.3, verification off,
+//!     recording whether the server sent a CertificateRequest) against every subject
+//!     server configuration: "a server without a client CA never asks for a certificate";
+//!  3. `reload`  – histories  identity A -> handshake -> reload to B -> handshakes, with
+//!     the first connection kept open across the reload.
+
 use crate::Args;
 use crate::report::Report;
+use rcgen::{BasicConstraints, CertificateParams, DnType, ExtendedKeyUsagePurpose, IsCa, Issuer, KeyPair, KeyUsagePurpose};
+use rustls::client::danger::{HandshakeSignatureValid, ServerCertVerified, ServerCertVerifier};
+use rustls::crypto::CryptoProvider;
+use rustls::pki_types::{CertificateDer, PrivateKeyDer, PrivatePkcs8KeyDer, ServerName, UnixTime};
+use rustls::sign::CertifiedKey;
+use rustls::{ClientConfig, DigitallySignedStruct, ServerConfig, SignatureScheme};
+use rusty_penguin_lib::tls;
+use serde_json::{Value, json};
+use std::collections::HashSet;
+use std::panic::AssertUnwindSafe;
+use std::sync::atomic::{AtomicBool, AtomicU64, Ordering};
+use std::sync::{Arc, Mutex};
+use std::time::Duration;
+use tokio::io::{AsyncRead, AsyncReadExt, AsyncWrite, AsyncWriteExt, DuplexStream};
+
+// ---------------------------------------------------------------------------------------
+// PKI material (all made by the harness; "issued by" is known by construction)
+// ---------------------------------------------------------------------------------------
+
+const ALGS: [&str; 4] = ["p256", "p384", "ed25519", "rsa2048"];
+
+fn gen_key(alg: &str) -> KeyPair {
+    match alg {
+        "p256" => KeyPair::generate_for(&rcgen::PKCS_ECDSA_P256_SHA256),
+        "p384" => KeyPair::generate_for(&rcgen::PKCS_ECDSA_P384_SHA384),
+        "ed25519" => KeyPair::generate_for(&rcgen::PKCS_ED25519),
+        "rsa2048" => KeyPair::generate_rsa_for(&rcgen::PKCS_RSA_SHA256, rcgen::RsaKeySize::_2048),
+        other => panic!("unknown key algorithm {other}"),
+    }
+    .expect("key generation")
+}
+
+struct Ident {
+    cert_path: String,
+    key_path: String,
+    cert_pem: String,
+    key_pem: String,
+    cert_der: Vec<u8>,
+    key_der: Vec<u8>,
+}
+
+struct Ca {
+    path: String,
+    issuer: Issuer<'static, KeyPair>,
+}
+
+/// Server certificate kinds (who vouches for it).
+const SERVER_KINDS: [&str; 4] = ["trusted-ca", "other-ca", "self-signed", "trusted-ca-expired"];
+/// Subject alternative names server certificates are made for.
+const SANS: [&str; 3] = ["localhost", "other.test", "127.0.0.1"];
+/// Client certificate kinds.
+const CLIENT_KINDS: [&str; 4] = ["none", "client-ca", "other-ca", "self-signed"];
+/// Roots handed to the client (`--tls-ca`); "system" = no file given.
+const ROOTS: [&str; 3] = ["trusted-ca", "other-ca", "system"];
+/// How the server configuration is constructed.
+const CTORS: [&str; 3] = ["make_tls_identity", "make_server_config", "make_tls_identity_from_pem"];
+
+struct Pki {
+    _dir: tempfile::TempDir,
+    dir_path: String,
+    ca_trusted: Ca,
+    ca_other: Ca,
+    ca_client: Ca,
+    /// (kind, san) -> identity; kind "trusted-ca-2" is a second, distinct trusted leaf (reload pass)
+    servers: Vec<((String, String), Ident)>,
+    /// kind -> identity
+    clients: Vec<(String, Ident)>,
+}
+
+fn write(path: &str, content: &str) {
+    std::fs::write(path, content).expect("write pem");
+}
+
+fn make_ca(dir: &str, name: &str, alg: &str) -> Ca {
+    let mut p = CertificateParams::new(Vec::<String>::new()).expect("params");
+    p.is_ca = IsCa::Ca(BasicConstraints::Unconstrained);
+    p.distinguished_name.push(DnType::CommonName, format!("verif {name}"));
+    p.distinguished_name.push(DnType::OrganizationName, format!("verif-{name}"));
+    p.key_usages = vec![KeyUsagePurpose::DigitalSignature, KeyUsagePurpose::KeyCertSign, KeyUsagePurpose::CrlSign];
+    let key = gen_key(alg);
+    let cert = p.self_signed(&key).expect("ca cert");
+    let path = format!("{dir}/{name}.pem");
+    write(&path, &cert.pem());
+    Ca { path, issuer: Issuer::new(p, key) }
+}
+
+fn leaf_params(san: &str, cn: &str, eku: ExtendedKeyUsagePurpose, expired: bool) -> CertificateParams {
+    let sans: Vec<String> = if san.is_empty() { vec![] } else { vec![san.to_string()] };
+    let mut p = CertificateParams::new(sans).expect("params");
+    p.distinguished_name = rcgen::DistinguishedName::new();
+    p.distinguished_name.push(DnType::CommonName, cn);
+    p.use_authority_key_identifier_extension = true;
+    p.key_usages = vec![KeyUsagePurpose::DigitalSignature];
+    p.extended_key_usages = vec![eku];
+    if expired {
+        p.not_before = rcgen::date_time_ymd(2000, 1, 1);
+        p.not_after = rcgen::date_time_ymd(2001, 1, 1);
+    }
+    p
+}
+
+fn make_ident(dir: &str, file: &str, alg: &str, params: &CertificateParams, issuer: Option<&Ca>) -> Ident {
+    let key = gen_key(alg);
+    let cert = match issuer {
+        Some(ca) => params.signed_by(&key, &ca.issuer).expect("leaf"),
+        None => params.self_signed(&key).expect("self-signed"),
+    };
+    let cert_path = format!("{dir}/{file}.cert.pem");
+    let key_path = format!("{dir}/{file}.key.pem");
+    let cert_pem = cert.pem();
+    let key_pem = key.serialize_pem();
+    write(&cert_path, &cert_pem);
+    write(&key_path, &key_pem);
+    Ident { cert_path, key_path, cert_pem, key_pem, cert_der: cert.der().to_vec(), key_der: key.serialize_der() }
+}
+
+impl Pki {
+    fn new(alg: &str) -> Self {
+        let dir = tempfile::Builder::new().prefix("verif-c17-").tempdir().expect("tempdir");
+        let d = dir.path().to_str().expect("utf8 tempdir").to_string();
+        let ca_trusted = make_ca(&d, "ca-trusted", alg);
+        let ca_other = make_ca(&d, "ca-other", alg);
+        let ca_client = make_ca(&d, "ca-client", alg);
+        let mut servers = Vec::new();
+        for san in SANS {
+            for kind in ["trusted-ca", "trusted-ca-2", "other-ca", "self-signed", "trusted-ca-expired"] {
+                let p = leaf_params(san, &format!("srv {kind} {san}"), ExtendedKeyUsagePurpose::ServerAuth, kind == "trusted-ca-expired");
+                let issuer = match kind {
+                    "trusted-ca" | "trusted-ca-2" | "trusted-ca-expired" => Some(&ca_trusted),
+                    "other-ca" => Some(&ca_other),
+                    _ => None,
+                };
+                let id = make_ident(&d, &format!("srv-{kind}-{san}"), alg, &p, issuer);
+                servers.push(((kind.to_string(), san.to_string()), id));
+            }
+        }
+        let mut clients = Vec::new();
+        for kind in ["client-ca", "other-ca", "self-signed"] {
+            let p = leaf_params("", &format!("client {kind}"), ExtendedKeyUsagePurpose::ClientAuth, false);
+            let issuer = match kind {
+                "client-ca" => Some(&ca_client),
+                "other-ca" => Some(&ca_other),
+                _ => None,
+            };
+            clients.push((kind.to_string(), make_ident(&d, &format!("cli-{kind}"), alg, &p, issuer)));
+        }
+        Self { _dir: dir, dir_path: d, ca_trusted, ca_other, ca_client, servers, clients }
+    }
+    fn server(&self, kind: &str, san: &str) -> &Ident {
+        &self.servers.iter().find(|((k, s), _)| k == kind && s == san).unwrap_or_else(|| panic!("no server identity {kind}/{san}")).1
+    }
+    fn client(&self, kind: &str) -> Option<&Ident> {
+        self.clients.iter().find(|(k, _)| k == kind).map(|x| &x.1)
+    }
+    fn roots_path(&self, roots: &str) -> Option<&str> {
+        match roots {
+            "trusted-ca" => Some(&self.ca_trusted.path),
+            "other-ca" => Some(&self.ca_other.path),
+            "system" => None,
+            other => panic!("unknown roots {other}"),
+        }
+    }
+}
+
+// ---------------------------------------------------------------------------------------
+// One handshake + echo
+// ---------------------------------------------------------------------------------------
+
+#[derive(Clone, Debug, PartialEq, Eq, Default)]
+struct Obs {
+    /// error text of building the server configuration (subject call), if it failed
+    server_config_err: Option<String>,
+    client_connect_ok: bool,
+    client_err: String,
+    server_accept_ok: bool,
+    server_err: String,
+    /// client -> server byte arrived and server -> client byte arrived
+    echo_ok: bool,
+    /// what the server's connection reports as the peer's certificates
+    server_peer_certs: Option<Vec<Vec<u8>>>,
+    /// end-entity certificate the client saw
+    client_saw_cert: Option<Vec<u8>>,
+    /// (probe only) the server sent a CertificateRequest
+    asked_for_cert: Option<bool>,
+    panicked: Option<String>,
+    timed_out: bool,
+}
+
+impl Obs {
+    fn success(&self) -> bool {
+        self.client_connect_ok && self.server_accept_ok && self.echo_ok
+    }
+    /// Deterministic part (error texts may contain addresses etc.; they are stable here, but
+    /// replay compares only the verdict-relevant fields).
+    fn verdict_fields(&self) -> Value {
+        json!({
+            "server_config_err": self.server_config_err.is_some(),
+            "client_connect_ok": self.client_connect_ok,
+            "server_accept_ok": self.server_accept_ok,
+            "echo_ok": self.echo_ok,
+            "server_peer_certs": self.server_peer_certs.as_ref().map(Vec::len),
+            "asked_for_cert": self.asked_for_cert,
+            "panicked": self.panicked,
+            "timed_out": self.timed_out,
+        })
+    }
+    fn to_json(&self) -> Value {
+        let mut v = self.verdict_fields();
+        v["client_err"] = json!(self.client_err);
+        v["server_err"] = json!(self.server_err);
+        v["server_config_err_text"] = json!(self.server_config_err);
+        v
+    }
+}
+
+async fn server_half<IO: AsyncRead + AsyncWrite + Unpin>(io: IO, cfg: Arc<ServerConfig>) -> (Result<tokio_rustls::server::TlsStream<IO>, String>, Option<Vec<Vec<u8>>>, bool) {
+    match tokio_rustls::TlsAcceptor::from(cfg).accept(io).await {
+        Err(e) => (Err(e.to_string()), None, false),
+        Ok(mut s) => {
+            let certs = s.get_ref().1.peer_certificates().map(|c| c.iter().map(|x| x.to_vec()).collect::<Vec<_>>());
+            let mut b = [0u8; 1];
+            let ok = s.read_exact(&mut b).await.is_ok() && b[0] == b'c' && s.write_all(b"s").await.is_ok() && s.flush().await.is_ok();
+            (Ok(s), certs, ok)
+        }
+    }
+}
+
+async fn echo_from_client<S: AsyncRead + AsyncWrite + Unpin>(s: &mut S) -> bool {
+    let mut b = [0u8; 1];
+    s.write_all(b"c").await.is_ok() && s.flush().await.is_ok() && s.read_exact(&mut b).await.is_ok() && b[0] == b's'
+}
+
+/// Build the server configuration through the chosen public constructor of the subject.
+async fn build_server_config(ctor: &str, id: &Ident, client_ca: Option<&str>) -> Result<(Option<tls::TlsIdentity>, Arc<ServerConfig>), String> {
+    match ctor {
+        "make_tls_identity" => {
+            let ident = tls::make_tls_identity(&id.cert_path, &id.key_path, client_ca).await.map_err(|e| e.to_string())?;
+            let cfg = ident.load_full();
+            Ok((Some(ident), cfg))
+        }
+        "make_server_config" => {
+            let cfg = tls::make_server_config(&id.cert_path, &id.key_path, client_ca).await.map_err(|e| e.to_string())?;
+            Ok((None, Arc::new(cfg)))
+        }
+        "make_tls_identity_from_pem" => {
+            let ident = tls::make_tls_identity_from_pem(id.cert_pem.clone(), id.key_pem.clone(), client_ca).await.map_err(|e| e.to_string())?;
+            let cfg = ident.load_full();
+            Ok((Some(ident), cfg))
+        }
+        other => panic!("unknown constructor {other}"),
+    }
+}
+
+type ClientStream = tokio_rustls::TlsStream<DuplexStream>;
+type ServerStream = tokio_rustls::server::TlsStream<DuplexStream>;
+
+/// Subject client against a given server configuration. Returns the observation and, on
+/// success, both live streams (the reload pass keeps them).
+async fn subject_handshake(
+    cfg: Arc<ServerConfig>,
+    req_name: &str,
+    client_id: Option<&Ident>,
+    roots: Option<&str>,
+    skip: bool,
+) -> (Obs, Option<(ClientStream, ServerStream)>) {
+    let (cio, sio) = tokio::io::duplex(1 << 16);
+    let client = async {
+        match tls::tls_connect(cio, req_name, client_id.map(|c| c.cert_path.as_str()), client_id.map(|c| c.key_path.as_str()), roots, skip).await {
+            Err(e) => (Err(e.to_string()), None, false),
+            Ok(mut s) => {
+                let saw = s.get_ref().1.peer_certificates().and_then(|c| c.first().map(|x| x.to_vec()));
+                let ok = echo_from_client(&mut s).await;
+                (Ok(s), saw, ok)
+            }
+        }
+    };
+    let server = server_half(sio, cfg);
+    let mut obs = Obs::default();
+    let joined = tokio::time::timeout(Duration::from_secs(30), async { tokio::join!(client, server) }).await;
+    let Ok(((c_res, c_saw, c_echo), (s_res, s_certs, s_echo))) = joined else {
+        obs.timed_out = true;
+        return (obs, None);
+    };
+    obs.client_connect_ok = c_res.is_ok();
+    obs.server_accept_ok = s_res.is_ok();
+    obs.echo_ok = c_echo && s_echo;
+    obs.client_saw_cert = c_saw;
+    obs.server_peer_certs = s_certs;
+    let mut streams = None;
+    match (c_res, s_res) {
+        (Ok(c), Ok(s)) => streams = Some((c, s)),
+        (c, s) => {
+            if let Err(e) = c {
+                obs.client_err = e;
+            }
+            if let Err(e) = s {
+                obs.server_err = e;
+            }
+        }
+    }
+    (obs, streams)
+}
+
+// ---- harness-owned probing client --------------------------------------------------------
+
+#[derive(Debug)]
+struct AcceptAnyServerCert(Arc<CryptoProvider>);
+
+impl ServerCertVerifier for AcceptAnyServerCert {
+    fn verify_server_cert(&self, _: &CertificateDer<'_>, _: &[CertificateDer<'_>], _: &ServerName<'_>, _: &[u8], _: UnixTime) -> Result<ServerCertVerified, rustls::Error> {
+        Ok(ServerCertVerified::assertion())
+    }
+    fn verify_tls12_signature(&self, m: &[u8], c: &CertificateDer<'_>, d: &DigitallySignedStruct) -> Result<HandshakeSignatureValid, rustls::Error> {
+        rustls::crypto::verify_tls12_signature(m, c, d, &self.0.signature_verification_algorithms)
+    }
+    fn verify_tls13_signature(&self, m: &[u8], c: &CertificateDer<'_>, d: &DigitallySignedStruct) -> Result<HandshakeSignatureValid, rustls::Error> {
+        rustls::crypto::verify_tls13_signature(m, c, d, &self.0.signature_verification_algorithms)
+    }
+    fn supported_verify_schemes(&self) -> Vec<SignatureScheme> {
+        self.0.signature_verification_algorithms.supported_schemes()
+    }
+}
+
+/// Records whether the server asked for a client certificate (rustls calls `resolve` exactly
+/// when a CertificateRequest was received).
+#[derive(Debug)]
+struct RecordingResolver {
+    asked: AtomicBool,
+    key: Option<Arc<CertifiedKey>>,
+}
+
+impl rustls::client::ResolvesClientCert for RecordingResolver {
+    fn resolve(&self, _hints: &[&[u8]], _schemes: &[SignatureScheme]) -> Option<Arc<CertifiedKey>> {
+        self.asked.store(true, Ordering::SeqCst);
+        self.key.clone()
+    }
+    fn has_certs(&self) -> bool {
+        true
+    }
+}
+
+fn provider() -> Arc<CryptoProvider> {
+    CryptoProvider::get_default().expect("crypto provider installed").clone()
+}
+
+async fn probe_handshake(cfg: Arc<ServerConfig>, tls13: bool, client_id: Option<&Ident>) -> Obs {
+    let prov = provider();
+    let key = client_id.map(|id| {
+        let k = PrivateKeyDer::Pkcs8(PrivatePkcs8KeyDer::from(id.key_der.clone()));
+        Arc::new(CertifiedKey::from_der(vec![CertificateDer::from(id.cert_der.clone())], k, &prov).expect("certified key"))
+    });
+    let resolver = Arc::new(RecordingResolver { asked: AtomicBool::new(false), key });
+    let versions: &[&rustls::SupportedProtocolVersion] = if tls13 { &[&rustls::version::TLS13] } else { &[&rustls::version::TLS12] };
+    let ccfg = ClientConfig::builder_with_provider(prov.clone())
+        .with_protocol_versions(versions)
+        .expect("protocol versions")
+        .dangerous()
+        .with_custom_certificate_verifier(Arc::new(AcceptAnyServerCert(prov)))
+        .with_client_cert_resolver(resolver.clone());
+    let (cio, sio) = tokio::io::duplex(1 << 16);
+    let client = async {
+        let conn = tokio_rustls::TlsConnector::from(Arc::new(ccfg));
+        match conn.connect(ServerName::try_from("localhost").expect("name"), cio).await {
+            Err(e) => (Err(e.to_string()), false),
+            Ok(mut s) => {
+                let ok = echo_from_client(&mut s).await;
+                (Ok(()), ok)
+            }
+        }
+    };
+    let server = server_half(sio, cfg);
+    let mut obs = Obs::default();
+    let joined = tokio::time::timeout(Duration::from_secs(30), async { tokio::join!(client, server) }).await;
+    let Ok(((c_res, c_echo), (s_res, s_certs, s_echo))) = joined else {
+        obs.timed_out = true;
+        return obs;
+    };
+    obs.client_connect_ok = c_res.is_ok();
+    obs.client_err = c_res.err().unwrap_or_default();
+    obs.server_accept_ok = s_res.is_ok();
+    obs.server_err = s_res.err().unwrap_or_default();
+    obs.echo_ok = c_echo && s_echo;
+    obs.server_peer_certs = s_certs;
+    obs.asked_for_cert = Some(resolver.asked.load(Ordering::SeqCst));
+    obs
+}
+
+// ---------------------------------------------------------------------------------------
+// Cases and the reference truth table
+// ---------------------------------------------------------------------------------------
+
+#[derive(Clone, Debug, PartialEq, Eq, Hash)]
+struct MatrixCase {
+    alg: String,
+    server_cert: String,
+    san: String,
+    req_name: String,
+    skip: bool,
+    roots: String,
+    client_cert: String,
+    server_client_ca: bool,
+    ctor: String,
+}
+
+impl MatrixCase {
+    fn to_json(&self) -> Value {
+        json!({"kind": "matrix", "alg": self.alg, "server_cert": self.server_cert, "san": self.san, "req_name": self.req_name,
+               "skip_verify": self.skip, "client_roots": self.roots, "client_cert": self.client_cert,
+               "server_client_ca": self.server_client_ca, "ctor": self.ctor})
+    }
+    fn from_json(v: &Value) -> Self {
+        let s = |k: &str| v[k].as_str().unwrap_or_else(|| panic!("replay: missing {k}")).to_string();
+        Self {
+            alg: s("alg"),
+            server_cert: s("server_cert"),
+            san: s("san"),
+            req_name: s("req_name"),
+            skip: v["skip_verify"].as_bool().expect("skip_verify"),
+            roots: s("client_roots"),
+            client_cert: s("client_cert"),
+            server_client_ca: v["server_client_ca"].as_bool().expect("server_client_ca"),
+            ctor: s("ctor"),
+        }
+    }
+}
+
+/// Reference: why (if at all) must a verifying client refuse this server certificate?
+/// Written from the statement: the chain must validate against the roots the client was given
+/// (issuer among them, inside its validity period) and the certificate must match the name.
+fn server_cert_defect(server_cert: &str, san: &str, req_name: &str, roots: &str) -> Option<&'static str> {
+    let issuer = match server_cert {
+        "trusted-ca" | "trusted-ca-2" | "trusted-ca-expired" => "trusted-ca",
+        "other-ca" => "other-ca",
+        _ => "self",
+    };
+    if issuer != roots {
+        // includes "system": none of the freshly generated CAs is in the system store
+        return Some("untrusted-chain");
+    }
+    if server_cert == "trusted-ca-expired" {
+        return Some("expired");
+    }
+    if san != req_name {
+        return Some("name-mismatch");
+    }
+    None
+}
+
+/// Reference: may this client complete a handshake with a server configured like that?
+fn client_cert_defect(client_cert: &str, server_client_ca: bool) -> Option<&'static str> {
+    if !server_client_ca {
+        return None;
+    }
+    match client_cert {
+        "client-ca" => None,
+        "none" => Some("no-client-cert"),
+        "other-ca" => Some("client-cert-other-ca"),
+        "self-signed" => Some("client-cert-self-signed"),
+        other => panic!("unknown client cert kind {other}"),
+    }
+}
+
+struct Sink<'a> {
+    rep: &'a Mutex<Report>,
+}
+
+impl Sink<'_> {
+    fn viol(&self, key: String, desc: String, replay: Value) {
+        self.rep.lock().unwrap().violation(key, desc, replay);
+    }
+}
+
+async fn catch<F: Future>(f: F) -> Result<F::Output, String> {
+    use std::pin::pin;
+    use std::task::Poll;
+    let mut f = pin!(f);
+    std::future::poll_fn(move |cx| match std::panic::catch_unwind(AssertUnwindSafe(|| f.as_mut().poll(cx))) {
+        Ok(Poll::Ready(v)) => Poll::Ready(Ok(v)),
+        Ok(Poll::Pending) => Poll::Pending,
+        Err(e) => Poll::Ready(Err(panic_text(&*e))),
+    })
+    .await
+}
+
+fn panic_text(e: &(dyn std::any::Any + Send)) -> String {
+    if let Some(s) = e.downcast_ref::<String>() {
+        s.clone()
+    } else if let Some(s) = e.downcast_ref::<&str>() {
+        (*s).to_string()
+    } else {
+        "panic".into()
+    }
+}
+
+async fn run_matrix_case(pki: &Pki, c: &MatrixCase) -> Obs {
+    let r = catch(async {
+        let id = pki.server(&c.server_cert, &c.san);
+        let ca = c.server_client_ca.then_some(pki.ca_client.path.as_str());
+        let cfg = match build_server_config(&c.ctor, id, ca).await {
+            Ok((_, cfg)) => cfg,
+            Err(e) => {
+                return Obs { server_config_err: Some(e), ..Obs::default() };
+            }
+        };
+        subject_handshake(cfg, &c.req_name, pki.client(&c.client_cert), pki.roots_path(&c.roots), c.skip).await.0
+    })
+    .await;
+    match r {
+        Ok(o) => o,
+        Err(p) => Obs { panicked: Some(p), ..Obs::default() },
+    }
+}
+
+/// Compare one matrix observation with the truth table. Returns whether success was expected.
+fn judge_matrix(pki: &Pki, c: &MatrixCase, o: &Obs, sink: &Sink<'_>) -> bool {
+    let srv_defect = if c.skip { None } else { server_cert_defect(&c.server_cert, &c.san, &c.req_name, &c.roots) };
+    let cli_defect = client_cert_defect(&c.client_cert, c.server_client_ca);
+    let expect_success = srv_defect.is_none() && cli_defect.is_none();
+    let replay = c.to_json();
+    let ctx = format!(
+        "server cert {}/{} (via {}), client asks for {:?} with roots={} skip_verify={} client cert={}, server client-CA {}",
+        c.server_cert,
+        c.san,
+        c.ctor,
+        c.req_name,
+        c.roots,
+        c.skip,
+        c.client_cert,
+        if c.server_client_ca { "set" } else { "none" }
+    );
+    if let Some(p) = &o.panicked {
+        sink.viol("matrix.panic".into(), format!("panic during handshake ({ctx}): {p}"), replay);
+        return expect_success;
+    }
+    if o.timed_out {
+        sink.viol("matrix.hang".into(), format!("handshake did not finish within 30 s ({ctx})"), replay);
+        return expect_success;
+    }
+    if let Some(e) = &o.server_config_err {
+        sink.viol(format!("server.config-rejected.{}", c.ctor), format!("{} fails on a well-formed certificate/key/CA: {e} ({ctx})", c.ctor), replay);
+        return expect_success;
+    }
+    // --- the client's decision about the server
+    if let Some(why) = srv_defect {
+        if o.client_connect_ok {
+            sink.viol(
+                format!("client.accepts-server.{why}.skip-verify-off"),
+                format!("tls_connect succeeded although verification is on and the server certificate is unacceptable ({why}); {ctx}"),
+                replay.clone(),
+            );
+        }
+    } else if !o.client_connect_ok {
+        let class = if c.skip { format!("skip-verify-on.{}", server_cert_defect(&c.server_cert, &c.san, &c.req_name, &c.roots).unwrap_or("valid-cert")) } else { "valid-cert".to_string() };
+        sink.viol(
+            format!("client.rejects-server.{class}"),
+            format!("tls_connect failed ({}) although the server certificate must be accepted; {ctx}", o.client_err),
+            replay.clone(),
+        );
+    }
+    // --- the server's decision about the client (observable only when the client went on)
+    if srv_defect.is_none() && o.client_connect_ok {
+        match cli_defect {
+            Some(why) => {
+                if o.server_accept_ok || o.echo_ok {
+                    sink.viol(
+                        format!("server.accepts-client.{why}"),
+                        format!("server with a client CA completed the handshake (accept ok={}, echo ok={}) with a client that has {why}; {ctx}", o.server_accept_ok, o.echo_ok),
+                        replay.clone(),
+                    );
+                }
+            }
+            None => {
+                if !o.server_accept_ok || !o.echo_ok {
+                    sink.viol(
+                        format!("server.rejects-client.{}.client-ca-{}", c.client_cert, if c.server_client_ca { "set" } else { "none" }),
+                        format!("handshake/echo failed (server: {:?}, echo ok={}) although the client must be admitted; {ctx}", o.server_err, o.echo_ok),
+                        replay.clone(),
+                    );
+                }
+            }
+        }
+    }
+    // --- what the server learnt about the peer
+    if o.server_accept_ok {
+        if !c.server_client_ca && o.server_peer_certs.is_some() {
+            sink.viol(
+                "server.peer-certs-without-client-ca".into(),
+                format!("server without a client CA obtained a client certificate; {ctx}"),
+                replay.clone(),
+            );
+        }
+        if c.server_client_ca && cli_defect.is_none() {
+            let want = pki.client(&c.client_cert).map(|i| vec![i.cert_der.clone()]);
+            if o.server_peer_certs != want {
+                sink.viol(
+                    "server.peer-certs-differ".into(),
+                    format!("server's peer_certificates() is not the chain the client was configured with; {ctx}"),
+                    replay.clone(),
+                );
+            }
+        }
+    }
+    // --- the client saw the certificate the server was configured with
+    if o.client_connect_ok {
+        let want = &pki.server(&c.server_cert, &c.san).cert_der;
+        if o.client_saw_cert.as_ref() != Some(want) {
+            sink.viol("client.sees-other-certificate".into(), format!("client's view of the server certificate differs from the configured one; {ctx}"), replay);
+        }
+    }
+    expect_success
+}
+
+// ---------------------------------------------------------------------------------------
+// Probe pass
+// ---------------------------------------------------------------------------------------
+
+#[derive(Clone, Debug, PartialEq, Eq, Hash)]
+struct ProbeCase {
+    alg: String,
+    server_cert: String,
+    ctor: String,
+    server_client_ca: bool,
+    tls13: bool,
+    client_cert: String,
+}
+
+impl ProbeCase {
+    fn to_json(&self) -> Value {
+        json!({"kind": "probe", "alg": self.alg, "server_cert": self.server_cert, "ctor": self.ctor,
+               "server_client_ca": self.server_client_ca, "tls13": self.tls13, "client_cert": self.client_cert})
+    }
+    fn from_json(v: &Value) -> Self {
+        let s = |k: &str| v[k].as_str().unwrap_or_else(|| panic!("replay: missing {k}")).to_string();
+        Self {
+            alg: s("alg"),
+            server_cert: s("server_cert"),
+            ctor: s("ctor"),
+            server_client_ca: v["server_client_ca"].as_bool().expect("server_client_ca"),
+            tls13: v["tls13"].as_bool().expect("tls13"),
+            client_cert: s("client_cert"),
+        }
+    }
+}
+
+async fn run_probe_case(pki: &Pki, c: &ProbeCase) -> Obs {
+    let r = catch(async {
+        let id = pki.server(&c.server_cert, "localhost");
+        let ca = c.server_client_ca.then_some(pki.ca_client.path.as_str());
+        let cfg = match build_server_config(&c.ctor, id, ca).await {
+            Ok((_, cfg)) => cfg,
+            Err(e) => return Obs { server_config_err: Some(e), ..Obs::default() },
+        };
+        probe_handshake(cfg, c.tls13, pki.client(&c.client_cert)).await
+    })
+    .await;
+    match r {
+        Ok(o) => o,
+        Err(p) => Obs { panicked: Some(p), ..Obs::default() },
+    }
+}
+
+fn judge_probe(pki: &Pki, c: &ProbeCase, o: &Obs, sink: &Sink<'_>) -> bool {
+    let cli_defect = client_cert_defect(&c.client_cert, c.server_client_ca);
+    let replay = c.to_json();
+    let ver = if c.tls13 { "tls13" } else { "tls12" };
+    let ctx = format!(
+        "harness client ({ver}, client cert={}) against server cert {} via {}, client-CA {}",
+        c.client_cert,
+        c.server_cert,
+        c.ctor,
+        if c.server_client_ca { "set" } else { "none" }
+    );
+    if let Some(p) = &o.panicked {
+        sink.viol("probe.panic".into(), format!("panic ({ctx}): {p}"), replay);
+        return cli_defect.is_none();
+    }
+    if o.timed_out {
+        sink.viol("probe.hang".into(), format!("no result within 30 s ({ctx})"), replay);
+        return cli_defect.is_none();
+    }
+    if let Some(e) = &o.server_config_err {
+        sink.viol(format!("server.config-rejected.{}", c.ctor), format!("{e} ({ctx})"), replay);
+        return cli_defect.is_none();
+    }
+    match (c.server_client_ca, o.asked_for_cert) {
+        (false, Some(true)) => sink.viol(format!("probe.server-asks-for-cert-without-client-ca.{ver}"), format!("a CertificateRequest was sent although no client CA is configured; {ctx}"), replay.clone()),
+        (true, Some(false)) => sink.viol(format!("probe.server-never-asks-with-client-ca.{ver}"), format!("no CertificateRequest although a client CA is configured; {ctx}"), replay.clone()),
+        _ => {}
+    }
+    match cli_defect {
+        Some(why) => {
+            if o.server_accept_ok || o.echo_ok {
+                sink.viol(format!("server.accepts-client.{why}"), format!("handshake completed (accept ok={}, echo ok={}); {ctx}", o.server_accept_ok, o.echo_ok), replay.clone());
+            }
+        }
+        None => {
+            if !o.success() {
+                sink.viol(
+                    format!("server.rejects-client.{}.client-ca-{}", c.client_cert, if c.server_client_ca { "set" } else { "none" }),
+                    format!("handshake/echo failed (client: {:?}, server: {:?}); {ctx}", o.client_err, o.server_err),
+                    replay.clone(),
+                );
+            }
+        }
+    }
+    if o.server_accept_ok {
+        if !c.server_client_ca && o.server_peer_certs.is_some() {
+            sink.viol("server.peer-certs-without-client-ca".into(), format!("server without a client CA obtained a client certificate; {ctx}"), replay.clone());
+        }
+        if c.server_client_ca && cli_defect.is_none() && o.server_peer_certs != pki.client(&c.client_cert).map(|i| vec![i.cert_der.clone()]) {
+            sink.viol("server.peer-certs-differ".into(), format!("peer_certificates() is not the presented chain; {ctx}"), replay);
+        }
+    }
+    cli_defect.is_none()
+}
+
+// ---------------------------------------------------------------------------------------
+// Reload histories
+// ---------------------------------------------------------------------------------------
+
+const RELOAD_KINDS: [&str; 4] = ["trusted-ca", "trusted-ca-2", "other-ca", "self-signed"];
+const RELOAD_HOW: [&str; 3] = ["same-paths-overwritten", "other-paths", "from-pem"];
+
+#[derive(Clone, Debug, PartialEq, Eq, Hash)]
+struct ReloadCase {
+    alg: String,
+    a: String,
+    b: String,
+    ca_a: bool,
+    ca_b: bool,
+    how: String,
+}
+
+impl ReloadCase {
+    fn to_json(&self) -> Value {
+        json!({"kind": "reload", "alg": self.alg, "identity_a": self.a, "identity_b": self.b, "client_ca_a": self.ca_a, "client_ca_b": self.ca_b, "how": self.how,
+               "ops": ["make_tls_identity(A)", "handshake#1 (skip-verify, client cert under client CA); keep", "probes vs A", "reload to B", "probes vs B", "echo on #1"]})
+    }
+    fn from_json(v: &Value) -> Self {
+        let s = |k: &str| v[k].as_str().unwrap_or_else(|| panic!("replay: missing {k}")).to_string();
+        Self { alg: s("alg"), a: s("identity_a"), b: s("identity_b"), ca_a: v["client_ca_a"].as_bool().expect("client_ca_a"), ca_b: v["client_ca_b"].as_bool().expect("client_ca_b"), how: s("how") }
+    }
+}
+
+/// Observations of one reload history, as (label, value) facts in a fixed order.
+type Facts = Vec<(String, Value)>;
+
+/// The three probes used before and after the reload; returns facts and raises violations.
+async fn identity_probes(pki: &Pki, ident: &tls::TlsIdentity, which: &str, kind: &str, ca: bool, c: &ReloadCase, sink: &Sink<'_>, facts: &mut Facts, counters: &Counters) {
+    let good_client = pki.client("client-ca");
+    let want_der = &pki.server(kind, "localhost").cert_der;
+    let replay = c.to_json();
+    let stage = if which == "A" { "before-reload" } else { "after-reload" };
+    // 1: skip-verify client with an admissible client certificate: must succeed and see `kind`
+    let (o, _) = subject_handshake(ident.load_full(), "localhost", good_client, None, true).await;
+    counters.evals.fetch_add(1, Ordering::Relaxed);
+    facts.push((format!("{stage}.skip.success"), json!(o.success())));
+    let sees = if o.client_saw_cert.as_ref() == Some(want_der) {
+        which.to_string()
+    } else if o.client_saw_cert.as_ref() == Some(&pki.server(&c.a, "localhost").cert_der) {
+        "A".into()
+    } else if o.client_saw_cert.as_ref() == Some(&pki.server(&c.b, "localhost").cert_der) {
+        "B".into()
+    } else {
+        "neither".into()
+    };
+    facts.push((format!("{stage}.skip.sees"), json!(sees)));
+    if !o.success() {
+        sink.viol(format!("reload.{stage}.handshake-fails"), format!("skip-verify client with a valid client certificate cannot connect {stage} (client: {:?}, server: {:?}); {c:?}", o.client_err, o.server_err), replay.clone());
+    } else if sees != which {
+        sink.viol(format!("reload.{stage}.sees-identity-{sees}"), format!("a handshake {stage} presents identity {sees}, expected {which} ({kind}); {c:?}"), replay.clone());
+    }
+    // 2: verifying client (roots = trusted CA): succeeds iff `kind` is issued by the trusted CA
+    let (o, _) = subject_handshake(ident.load_full(), "localhost", good_client, Some(&pki.ca_trusted.path), false).await;
+    counters.evals.fetch_add(1, Ordering::Relaxed);
+    let want = server_cert_defect(kind, "localhost", "localhost", "trusted-ca").is_none();
+    facts.push((format!("{stage}.verify.success"), json!(o.success())));
+    if o.success() != want {
+        sink.viol(
+            format!("reload.{stage}.verifying-client-{}", if want { "rejected" } else { "admitted" }),
+            format!("{stage} the identity is {kind}; a client verifying against the trusted CA got success={} (client: {:?}); {c:?}", o.success(), o.client_err),
+            replay.clone(),
+        );
+    }
+    // 3: client without certificate: succeeds iff no client CA is in force
+    let (o, _) = subject_handshake(ident.load_full(), "localhost", None, None, true).await;
+    counters.evals.fetch_add(1, Ordering::Relaxed);
+    facts.push((format!("{stage}.nocert.success"), json!(o.success())));
+    if o.success() == ca {
+        sink.viol(
+            format!("reload.{stage}.certless-client-{}", if ca { "admitted" } else { "rejected" }),
+            format!("{stage} the client CA is {}; a client without certificate got success={} (server: {:?}); {c:?}", if ca { "set" } else { "none" }, o.success(), o.server_err),
+            replay,
+        );
+    }
+}
+
+struct Counters {
+    evals: AtomicU64,
+}
+
+async fn run_reload_case(pki: &Pki, c: &ReloadCase, sink: &Sink<'_>, counters: &Counters) -> Result<Facts, String> {
+    catch(async {
+        let mut facts: Facts = Vec::new();
+        let replay = c.to_json();
+        let ida = pki.server(&c.a, "localhost");
+        let idb = pki.server(&c.b, "localhost");
+        let ca_path = pki.ca_client.path.clone();
+        // The live files the server is "started" with (per-case copies so that overwriting is safe).
+        let tag = format!("{}/live-{}-{}-{}{}-{}", pki.dir_path, c.a, c.b, u8::from(c.ca_a), u8::from(c.ca_b), c.how);
+        let live_cert = format!("{tag}.cert.pem");
+        let live_key = format!("{tag}.key.pem");
+        write(&live_cert, &ida.cert_pem);
+        write(&live_key, &ida.key_pem);
+        let ident = match tls::make_tls_identity(&live_cert, &live_key, c.ca_a.then_some(ca_path.as_str())).await {
+            Ok(i) => i,
+            Err(e) => {
+                sink.viol("server.config-rejected.make_tls_identity".into(), format!("{e}; {c:?}"), replay.clone());
+                return facts;
+            }
+        };
+        // handshake #1, kept open
+        let (o1, streams) = subject_handshake(ident.load_full(), "localhost", pki.client("client-ca"), None, true).await;
+        counters.evals.fetch_add(1, Ordering::Relaxed);
+        facts.push(("conn1.established".into(), json!(o1.success())));
+        let Some((mut c1, mut s1)) = streams.filter(|_| o1.success()) else {
+            sink.viol("reload.before-reload.handshake-fails".into(), format!("first connection cannot be established (client: {:?}, server: {:?}); {c:?}", o1.client_err, o1.server_err), replay.clone());
+            return facts;
+        };
+        identity_probes(pki, &ident, "A", &c.a, c.ca_a, c, sink, &mut facts, counters).await;
+        // the reload
+        let new_ca = c.ca_b.then_some(ca_path.as_str());
+        let r = match c.how.as_str() {
+            "same-paths-overwritten" => {
+                write(&live_cert, &idb.cert_pem);
+                write(&live_key, &idb.key_pem);
+                tls::reload_tls_identity(&ident, &live_cert, &live_key, new_ca).await
+            }
+            "other-paths" => tls::reload_tls_identity(&ident, &idb.cert_path, &idb.key_path, new_ca).await,
+            "from-pem" => tls::reload_tls_identity_from_pem(&ident, idb.cert_pem.clone(), idb.key_pem.clone(), new_ca).await,
+            other => panic!("unknown reload method {other}"),
+        };
+        counters.evals.fetch_add(1, Ordering::Relaxed);
+        facts.push(("reload.ok".into(), json!(r.is_ok())));
+        if let Err(e) = r {
+            sink.viol(format!("reload.fails.{}", c.how), format!("reloading to a well-formed identity fails: {e}; {c:?}"), replay.clone());
+            return facts;
+        }
+        identity_probes(pki, &ident, "B", &c.b, c.ca_b, c, sink, &mut facts, counters).await;
+        // connection #1 must be undisturbed: both directions still carry data, same peer data
+        let alive = tokio::time::timeout(Duration::from_secs(30), async {
+            let mut b = [0u8; 1];
+            let c2s = c1.write_all(b"c").await.is_ok() && c1.flush().await.is_ok() && s1.read_exact(&mut b).await.is_ok() && b[0] == b'c';
+            let s2c = s1.write_all(b"s").await.is_ok() && s1.flush().await.is_ok() && c1.read_exact(&mut b).await.is_ok() && b[0] == b's';
+            (c2s, s2c)
+        })
+        .await
+        .unwrap_or((false, false));
+        counters.evals.fetch_add(1, Ordering::Relaxed);
+        facts.push(("conn1.alive-after-reload".into(), json!([alive.0, alive.1])));
+        if alive != (true, true) {
+            sink.viol("reload.established-connection-disturbed".into(), format!("the connection made before the reload no longer echoes (c->s {}, s->c {}); {c:?}", alive.0, alive.1), replay.clone());
+        }
+        let still = c1.get_ref().1.peer_certificates().and_then(|x| x.first().map(|d| d.to_vec()));
+        if still.as_ref() != Some(&ida.cert_der) {
+            sink.viol("reload.established-connection-identity-changed".into(), format!("the first connection's peer certificate changed; {c:?}"), replay);
+        }
+        facts
+    })
+    .await
+}
+
+// ---------------------------------------------------------------------------------------
+// Driver
+// ---------------------------------------------------------------------------------------
+
+fn names_for(thorough: bool) -> Vec<(&'static str, &'static str)> {
+    // (certificate SAN, requested name)
+    let mut v = vec![("localhost", "localhost"), ("localhost", "other.test"), ("other.test", "localhost")];
+    if thorough {
+        v.extend([("127.0.0.1", "127.0.0.1"), ("127.0.0.1", "127.0.0.2"), ("other.test", "other.test"), ("localhost", "127.0.0.1")]);
+    }
+    v
+}
+
+fn matrix_domain(algs: &[&str], thorough: bool) -> Vec<MatrixCase> {
+    let mut v = Vec::new();
+    for alg in algs {
+        for server_cert in SERVER_KINDS {
+            for (san, req) in names_for(thorough) {
+                for skip in [false, true] {
+                    for roots in ROOTS {
+                        for client_cert in CLIENT_KINDS {
+                            for server_client_ca in [false, true] {
+                                for ctor in CTORS {
+                                    v.push(MatrixCase {
+                                        alg: (*alg).into(),
+                                        server_cert: server_cert.into(),
+                                        san: san.into(),
+                                        req_name: req.into(),
+                                        skip,
+                                        roots: roots.into(),
+                                        client_cert: client_cert.into(),
+                                        server_client_ca,
+                                        ctor: ctor.into(),
+                                    });
+                                }
+                            }
+                        }
+                    }
+                }
+            }
+        }
+    }
+    v
+}
+
+fn probe_domain(algs: &[&str]) -> Vec<ProbeCase> {
+    let mut v = Vec::new();
+    for alg in algs {
+        for server_cert in ["trusted-ca", "self-signed"] {
+            for ctor in CTORS {
+                for server_client_ca in [false, true] {
+                    for tls13 in [false, true] {
+                        for client_cert in CLIENT_KINDS {
+                            v.push(ProbeCase { alg: (*alg).into(), server_cert: server_cert.into(), ctor: ctor.into(), server_client_ca, tls13, client_cert: client_cert.into() });
+                        }
+                    }
+                }
+            }
+        }
+    }
+    v
+}
+
+fn reload_domain(algs: &[&str]) -> Vec<ReloadCase> {
+    let mut v = Vec::new();
+    for alg in algs {
+        for a in RELOAD_KINDS {
+            for b in RELOAD_KINDS {
+                if a == b {
+                    continue;
+                }
+                for ca_a in [false, true] {
+                    for ca_b in [false, true] {
+                        for how in RELOAD_HOW {
+                            v.push(ReloadCase { alg: (*alg).into(), a: a.into(), b: b.into(), ca_a, ca_b, how: how.into() });
+                        }
+                    }
+                }
+            }
+        }
+    }
+    v
+}
+
+fn runtime() -> tokio::runtime::Runtime {
+    tokio::runtime::Builder::new_current_thread().enable_all().build().expect("tokio runtime")
+}
+
+fn quiet_panics() {
+    std::panic::set_hook(Box::new(|_| {}));
+}
+
+fn replay(args: &Args, v: &Value, mut rep: Report) -> Report {
+    let alg = v["alg"].as_str().expect("replay: alg").to_string();
+    let pki = Pki::new(&alg);
+    let rep_m = Mutex::new(Report::new("C17", &args.tier, "enum", "exploration"));
+    let sink = Sink { rep: &rep_m };
+    let rt = runtime();
+    let counters = Counters { evals: AtomicU64::new(0) };
+    let mut observations = Vec::new();
+    for _ in 0..2 {
+        let o = match v["kind"].as_str() {
+            Some("matrix") => {
+                let c = MatrixCase::from_json(v);
+                let o = rt.block_on(run_matrix_case(&pki, &c));
+                judge_matrix(&pki, &c, &o, &sink);
+                rep.evaluations += 1;
+                json!({"verdict": o.verdict_fields(), "detail": o.to_json()})
+            }
+            Some("probe") => {
+                let c = ProbeCase::from_json(v);
+                let o = rt.block_on(run_probe_case(&pki, &c));
+                judge_probe(&pki, &c, &o, &sink);
+                rep.evaluations += 1;
+                json!({"verdict": o.verdict_fields(), "detail": o.to_json()})
+            }
+            Some("reload") => {
+                let c = ReloadCase::from_json(v);
+                match rt.block_on(run_reload_case(&pki, &c, &sink, &counters)) {
+                    Ok(f) => json!({"verdict": f}),
+                    Err(p) => {
+                        sink.viol("reload.panic".into(), format!("panic in reload history {c:?}: {p}"), c.to_json());
+                        json!({"verdict": {"panicked": p}})
+                    }
+                }
+            }
+            other => panic!("replay: unknown kind {other:?}"),
+        };
+        observations.push(o);
+    }
+    rep.evaluations += counters.evals.load(Ordering::Relaxed);
+    let inner = rep_m.into_inner().unwrap();
+    // both runs raise the same violations; halve the counts
+    for mut vi in inner.violations {
+        vi.count = vi.count.div_ceil(2);
+        rep.violations.push(vi);
+    }
+    if observations[0]["verdict"] != observations[1]["verdict"] {
+        rep.machinery_error = Some(format!("replay is not deterministic: {} vs {}", observations[0]["verdict"], observations[1]["verdict"]));
+    }
+    rep.distinct_nontrivial = 1;
+    rep.rule = "replay of one recorded configuration, executed twice with fresh key material; observations must agree".into();
+    rep.extra.insert("replayed".into(), v.clone());
+    rep.extra.insert("observations".into(), json!(observations));
+    rep
+}
 
 pub fn run(args: &Args) -> Report {
     let mut rep = Report::new("C17", &args.tier, "enum", "exploration");
-    rep.machinery_error = Some("not built yet".into());
+    quiet_panics();
+    // Never let a stray SSLKEYLOGFILE make the subject write key logs.
+    // (the variable is only read by rustls::KeyLogFile; nothing else depends on it)
+    if tls::init_crypto_provider().is_none() && CryptoProvider::get_default().is_none() {
+        rep.machinery_error = Some("cannot install the rustls crypto provider".into());
+        return rep;
+    }
+    if let Some(v) = args.replay_json() {
+        return replay(args, &v, rep);
+    }
+    let thorough = args.thorough();
+    let algs: Vec<&str> = if thorough { ALGS.to_vec() } else { vec!["p256"] };
+    rep.rule = "complete product: key algorithm x server certificate {trusted-CA leaf, other-CA leaf, self-signed, expired trusted-CA leaf} x (certificate name, requested name) x skip-verify x roots given to the client {trusted CA, other CA, none/system} x client certificate {none, client-CA, other-CA, self-signed} x server client-CA {none, set} x server-config constructor; plus harness-client probes (TLS1.2/1.3) of every server configuration and all reload histories A->B (identities, client-CA before/after, reload method); a case is distinct when its configuration tuple is distinct".into();
+
+    let t0 = std::time::Instant::now();
+    let pkis: Vec<(String, Pki)> = algs.iter().map(|a| ((*a).to_string(), Pki::new(a))).collect();
+    let pki_of = |alg: &str| &pkis.iter().find(|(a, _)| a == alg).expect("pki").1;
+    let keygen_s = t0.elapsed().as_secs_f64();
+
+    let matrix = matrix_domain(&algs, thorough);
+    let probes = probe_domain(&algs);
+    let reloads = reload_domain(&algs);
+    let distinct = matrix.iter().collect::<HashSet<_>>().len() + probes.iter().collect::<HashSet<_>>().len() + reloads.iter().collect::<HashSet<_>>().len();
+
+    let rep_m = Mutex::new(rep);
+    let sink = Sink { rep: &rep_m };
+    let counters = Counters { evals: AtomicU64::new(0) };
+    let n_success = AtomicU64::new(0);
+    let n_refused = AtomicU64::new(0);
+    let n_exp_srv_refusal = AtomicU64::new(0);
+    let n_exp_cli_refusal = AtomicU64::new(0);
+    let samples: Mutex<Vec<Value>> = Mutex::new(Vec::new());
+    let threads = args.threads.clamp(1, 16);
+
+    #[derive(Clone, Copy)]
+    enum Job {
+        M(usize),
+        P(usize),
+        R(usize),
+    }
+    let mut jobs: Vec<Job> = Vec::new();
+    jobs.extend((0..matrix.len()).map(Job::M));
+    jobs.extend((0..probes.len()).map(Job::P));
+    jobs.extend((0..reloads.len()).map(Job::R));
+    let next = AtomicU64::new(0);
+
+    std::thread::scope(|s| {
+        for _ in 0..threads {
+            s.spawn(|| {
+                let rt = runtime();
+                loop {
+                    let i = next.fetch_add(1, Ordering::Relaxed) as usize;
+                    let Some(job) = jobs.get(i).copied() else { break };
+                    match job {
+                        Job::M(k) => {
+                            let c = &matrix[k];
+                            let pki = pki_of(&c.alg);
+                            let o = rt.block_on(run_matrix_case(pki, c));
+                            counters.evals.fetch_add(1, Ordering::Relaxed);
+                            let exp = judge_matrix(pki, c, &o, &sink);
+                            if !exp {
+                                if !c.skip && server_cert_defect(&c.server_cert, &c.san, &c.req_name, &c.roots).is_some() {
+                                    n_exp_srv_refusal.fetch_add(1, Ordering::Relaxed);
+                                } else {
+                                    n_exp_cli_refusal.fetch_add(1, Ordering::Relaxed);
+                                }
+                            }
+                            if o.success() {
+                                n_success.fetch_add(1, Ordering::Relaxed);
+                            } else {
+                                n_refused.fetch_add(1, Ordering::Relaxed);
+                            }
+                            if k % (matrix.len() / 4).max(1) == 1 {
+                                samples.lock().unwrap().push(json!({"case": c.to_json(), "expected_success": exp, "observed": o.to_json()}));
+                            }
+                        }
+                        Job::P(k) => {
+                            let c = &probes[k];
+                            let pki = pki_of(&c.alg);
+                            let o = rt.block_on(run_probe_case(pki, c));
+                            counters.evals.fetch_add(1, Ordering::Relaxed);
+                            let exp = judge_probe(pki, c, &o, &sink);
+                            if o.success() {
+                                n_success.fetch_add(1, Ordering::Relaxed);
+                            } else {
+                                n_refused.fetch_add(1, Ordering::Relaxed);
+                            }
+                            if k == 5 {
+                                samples.lock().unwrap().push(json!({"case": c.to_json(), "expected_success": exp, "observed": o.to_json()}));
+                            }
+                        }
+                        Job::R(k) => {
+                            let c = &reloads[k];
+                            let pki = pki_of(&c.alg);
+                            match rt.block_on(run_reload_case(pki, c, &sink, &counters)) {
+                                Ok(f) => {
+                                    if k == 7 {
+                                        samples.lock().unwrap().push(json!({"case": c.to_json(), "observed": f}));
+                                    }
+                                }
+                                Err(p) => sink.viol("reload.panic".into(), format!("panic in reload history {c:?}: {p}"), c.to_json()),
+                            }
+                        }
+                    }
+                }
+            });
+        }
+    });
+
+    let mut rep = rep_m.into_inner().unwrap();
+    rep.evaluations = counters.evals.load(Ordering::Relaxed);
+    rep.distinct_nontrivial = distinct as u64;
+    rep.exhaustive = true;
+    rep.bounds.insert("key_algorithms".into(), json!(algs));
+    rep.bounds.insert("matrix_cases".into(), json!(matrix.len()));
+    rep.bounds.insert("probe_cases".into(), json!(probes.len()));
+    rep.bounds.insert("reload_histories".into(), json!(reloads.len()));
+    rep.bounds.insert("name_pairs(san,requested)".into(), json!(names_for(thorough)));
+    rep.bounds.insert("server_cert_kinds".into(), json!(SERVER_KINDS));
+    rep.bounds.insert("client_cert_kinds".into(), json!(CLIENT_KINDS));
+    rep.bounds.insert("client_roots".into(), json!(ROOTS));
+    rep.bounds.insert("constructors".into(), json!(CTORS));
+    rep.extra.insert("handshakes_succeeded".into(), json!(n_success.load(Ordering::Relaxed)));
+    rep.extra.insert("handshakes_refused".into(), json!(n_refused.load(Ordering::Relaxed)));
+    rep.extra.insert("matrix_expected_refusals_by_client".into(), json!(n_exp_srv_refusal.load(Ordering::Relaxed)));
+    rep.extra.insert("matrix_expected_refusals_by_server".into(), json!(n_exp_cli_refusal.load(Ordering::Relaxed)));
+    rep.extra.insert("keygen_s".into(), json!(keygen_s));
+    rep.extra.insert("build_profile".into(), json!(if cfg!(debug_assertions) { "checked" } else { "release" }));
+    for s in samples.into_inner().unwrap() {
+        rep.sample(s);
+    }
+    rep.assumptions.push("the system trust store does not contain the CAs generated for this run (roots = \"system\" means no --tls-ca)".into());
+    rep.assumptions.push("transport is an in-memory duplex pipe; TCP-level effects (resets, partial writes) are out of scope of this property".into());
+    rep.assumptions.push("the subject client is TLS 1.3 only (ECH grease); TLS 1.2 client authentication is exercised by the harness-owned probing client".into());
+    rep.assumptions.push("certificate chains have depth 1 (leaf directly under the CA); name matching is checked for one DNS mismatch in each direction (and IP names in the thorough tier)".into());
+    // vacuity guard: the domain must contain configurations of every expected outcome (success,
+    // refusal by the client, refusal by the server); judged on the reference's expectations so
+    // that a subject that refuses or admits everything is reported as a violation, not as a
+    // machinery problem.
+    let n_exp_success = matrix.iter().filter(|c| (c.skip || server_cert_defect(&c.server_cert, &c.san, &c.req_name, &c.roots).is_none()) && client_cert_defect(&c.client_cert, c.server_client_ca).is_none()).count();
+    rep.extra.insert("matrix_expected_successes".into(), json!(n_exp_success));
+    if n_exp_success == 0 || n_exp_srv_refusal.load(Ordering::Relaxed) == 0 || n_exp_cli_refusal.load(Ordering::Relaxed) == 0 {
+        rep.machinery_error = Some("degenerate domain: it lacks expected successes or expected refusals".into());
+    }
+    let (s, r) = (n_success.load(Ordering::Relaxed), n_refused.load(Ordering::Relaxed));
+    if (s == 0 || r == 0) && rep.violations.is_empty() {
+        rep.machinery_error = Some(format!("degenerate run: {s} successful / {r} refused handshakes observed"));
+    }
+    if rep.evaluations < (matrix.len() + probes.len() + reloads.len()) as u64 {
+        rep.machinery_error = Some("not every case was executed".into());
+    }
     rep
 }
